@@ -139,3 +139,31 @@ def reply_builders_source(templates):
         if "reply_on : reply_on_hole" not in " ".join(f.split()) or "id : reply_id_hole" not in " ".join(f.split()):
             raise TranslateError("generated reply builder: the template no longer sets reply_on / id from #reply_on / #reply_id")
     return write_source("reply_builders", "impl BuilderT { %s }" % " ".join(fns))
+
+
+DATA_MODES = [("raw_opt", 4), ("raw", 5), ("inst_opt", 6), ("inst", 7), ("opt", 8), ("typed", 9)]
+
+
+def reply_data_source(templates):
+    """the generated extraction of the reply data, one function per declared data mode (contract/communication/reply.rs
+    <MsgField as DataField>::emit_data_deserialization, templates t4..t9 with the nested envelope templates t2 / t3 spliced):
+    `fn <mode>(data, missing_data_err, invalid_reply_data_err) { <template> Ok(data) }` - the two error texts the macro
+    splices are parameters, the trailing `Ok(data)` makes the extracted value the result. WHICH template a mode selects is
+    the macro's decision (C09's model and L1 tie); the numbering is checked against the templates' content below."""
+    base = "contract/communication/reply.rs::<MsgField<'_>asDataField>::emit_data_deserialization#t"
+    nested = {"execute_data_deserialization": base + "2", "instantiate_data_deserialization": base + "3"}
+    holes = {"missing_data_err": "missing_data_err", "invalid_reply_data_err": "invalid_reply_data_err"}
+    t = dict((x[0], x[-1]) for x in templates)
+    expect = {"raw_opt": lambda x: x.strip() == "", "raw": lambda x: "parse_" not in x and "None => return Err" in x,
+              "inst_opt": lambda x: "instantiate_data_deserialization" in x and "None => None" in x,
+              "inst": lambda x: "instantiate_data_deserialization" in x and "None => return Err" in x,
+              "opt": lambda x: "execute_data_deserialization" in x and "None => None" in x,
+              "typed": lambda x: "execute_data_deserialization" in x and "None => return Err" in x}
+    fns = []
+    for mode, k in DATA_MODES:
+        key = base + str(k)
+        if key not in t or not expect[mode](t[key]):
+            raise TranslateError("reply data extraction: template %s is not the one of mode %s any more" % (key, mode))
+        body = instantiate(templates, key, nested, extra_holes=holes)
+        fns.append("fn %s ( data : DataT , missing_data_err : S , invalid_reply_data_err : S ) -> R { %s Ok ( data ) }" % (mode, body))
+    return write_source("reply_data", "impl DataT { %s }" % " ".join(fns))
